@@ -193,12 +193,27 @@ fn note_state(acc: &mut Acc, t: &Seg) {
 fn places_of(t: &Seg, id: u8) -> Vec<u32> {
     t.verif_chunks().iter().enumerate().filter(|(_, c)| c.iter().any(|(v, _)| v.id == id)).map(|(i, _)| i as u32).collect()
 }
+/// A fully consumed query.  The way of consuming alternates deterministically with the arguments between the
+/// loop over `next`, `for_each` (i.e. `fold`) and an explicit `fold`: all are "fully consumed" in the sense of
+/// C03 / C16, and an implementation may override the latter two.
 fn full_query(t: &mut Seg, c: u32, d: u32, tq: u8) -> Vec<SV> {
     let mut out = vec![];
-    for v in t.iter_by_range(SegRange { min: c as i32, max: d as i32 }, tq) {
-        out.push(v);
-        if out.len() > 100 {
-            break;
+    let it = t.iter_by_range(SegRange { min: c as i32, max: d as i32 }, tq);
+    match (c + 2 * d + tq as u32) % 3 {
+        0 => {
+            for v in it {
+                out.push(v);
+                if out.len() > 100 {
+                    break;
+                }
+            }
+        }
+        1 => it.for_each(|v| out.push(v)),
+        _ => {
+            out = it.fold(out, |mut acc, v| {
+                acc.push(v);
+                acc
+            })
         }
     }
     out
@@ -989,7 +1004,15 @@ fn export_histories(acc: &mut Acc, grow: u32) {
         cases.push((format!("hint={hint}: 2000 inserts expiring at 10, then 5 inserts at time 10"), hint, 2000, false, 5, 10));
         cases.push((format!("hint={hint}: 700 inserts, clear, then 3 inserts"), hint, 700, true, 3, 10));
     }
-    for (k, (label, hint, g, clr, n2, tq)) in cases.iter().enumerate() {
+    // every history twice: as is, and with one more entry that is stored but has expired when the export runs
+    // (the export then takes its filtering path; its result must still be sized by what is stored)
+    let mut cases2: Vec<(String, usize, u32, bool, u32, u32, u32)> = vec![];
+    for (label, hint, g, clr, n2, tq) in cases {
+        cases2.push((label.clone(), hint, g, clr, n2, tq, 0));
+        cases2.push((format!("{label}, one more insert expiring at 11, export at 12"), hint, g, clr, n2, 12, 1));
+    }
+    let cases = cases2;
+    for (k, (label, hint, g, clr, n2, tq, late)) in cases.iter().enumerate() {
         for subject in 0..2u32 {
             rt::hist_reset();
             rt::hist_push(code(4, 0, k as u64, 9, subject as u64));
@@ -1007,6 +1030,9 @@ fn export_histories(acc: &mut Acc, grow: u32) {
                     for i in 0..*n2 {
                         KC::insert(&mut t, BKey { id: 1_000_000 + i, exp: 99 }, i, 10);
                     }
+                    for i in 0..*late {
+                        KC::insert(&mut t, BKey { id: 2_000_000 + i, exp: 11 }, i, 10);
+                    }
                     let stored = tree_stored(&t);
                     (stored, t.into_ordered_vec(*tq))
                 } else {
@@ -1020,11 +1046,14 @@ fn export_histories(acc: &mut Acc, grow: u32) {
                     for i in 0..*n2 {
                         KC::insert(&mut t, BKey { id: 1_000_000 + i, exp: 99 }, i, 10);
                     }
+                    for i in 0..*late {
+                        KC::insert(&mut t, BKey { id: 2_000_000 + i, exp: 11 }, i, 10);
+                    }
                     let stored = t.verif_snapshot().0.len();
                     (stored, t.into_ordered_vec(*tq))
                 }
             });
-            acc.transitions += (*g + *n2) as u64 + 1;
+            acc.transitions += (*g + *n2 + *late) as u64 + 1;
             acc.evals += 1;
             acc.states.insert(fingerprint(format!("hist:{k}:{subject}").as_bytes()));
             match r {
